@@ -62,10 +62,12 @@ pub fn scenario(sub: u64) -> Option<(String, bool, u64)> {
     let (ta, tb, tc) = (a.consumer_tag().to_string(), b.consumer_tag().to_string(), c.consumer_tag().to_string());
     let (id1, id2) = (ch1.channel_id(), ch2.channel_id());
     let mut dtag = 1u64;
+    let mut expect_a: Vec<u64> = Vec::new();
     let mut expect_b: Vec<u64> = Vec::new();
     let mut expect_c: Vec<u64> = Vec::new();
     for _ in 0..pre {
         peer.push_frames(&delivery(id1, &ta, dtag, b"a"));
+        expect_a.push(dtag);
         dtag += 1;
         peer.push_frames(&delivery(id1, &tb, dtag, b"b"));
         expect_b.push(dtag);
@@ -181,7 +183,7 @@ pub fn scenario(sub: u64) -> Option<(String, bool, u64)> {
     let (got_c, disc_c) = drain(&rc);
     let _ = broker.stop();
     let term = format!(
-        "(({}, {}), ({}, {}, {}, {}), ({}, {}, {}), ({}, {}, {}), {})",
+        "(({}, {}), ({}, {}, {}, {}), ({}, {}, {}), ({}, {}, {}), ({}, {}))",
         mode,
         coqfmt::b(delayed),
         coqfmt::b(alive1),
@@ -194,6 +196,7 @@ pub fn scenario(sub: u64) -> Option<(String, bool, u64)> {
         coqfmt::list(&expect_c, |x| x.to_string()),
         coqfmt::list(&got_c, |x| x.to_string()),
         coqfmt::b(disc_c),
+        coqfmt::list(&expect_a, |x| x.to_string()),
         coqfmt::list(&a_seen, |x| x.to_string())
     );
     Some((term, delayed, mode))
